@@ -8,6 +8,9 @@
 //! - [`SlotVotedStake`] for all running stake totals in a single slot.
 //! - [`SlotCertificates`] for all certificates in a single slot.
 
+#[cfg(feature = "verif-hooks")]
+mod verif;
+
 use std::collections::BTreeMap;
 use std::sync::Arc;
 
